@@ -9,13 +9,15 @@ import (
 )
 
 const (
-	repoDir   = "/repo"
 	modPath   = "github.com/celestiaorg/go-header"
 	zzPkgPath = modPath + "/internal/zzverif"
 	hdrPkgPath = modPath + "/internal/zzhdr"
 )
 
 var verifDir = "/verif"
+
+// repoDir is the tree the encoding is generated from; /repo unless a scratch copy is named (seed triage only).
+var repoDir = "/repo"
 
 // Spec describes the check of one property: a list of units, each one harness over one package.
 type Spec struct {
